@@ -1,4 +1,4 @@
 SPECIFICATION Spec
-CONSTANTS MaxThreads = 1 NC = 1 Jobs = 2 Ordered = FALSE MaxSpurious = 1 defaultInitValue = defaultInitValue
+CONSTANTS MaxThreads = 1 NC = 1 Jobs = 2 Ordered = FALSE MaxSpurious = 1 Mixed = FALSE defaultInitValue = defaultInitValue
 INVARIANT NoRace
 CHECK_DEADLOCK FALSE
